@@ -459,7 +459,7 @@ def opOf (h : Handler) (p : Parsed) (r : Request) : Option Op :=
   | .swapRequest, .swap ps outs v => some (.swap ps outs v)
   | .meltQuoteRequest, .meltQuote inv unitSat mpp => some (.meltQuote inv unitSat mpp)
   | .meltQuoteState, .none => some (.meltState r.pathSym r.script)
-  | .meltTokens, .melt q ps => some (.melt q ps r.script)
+  | .meltTokens, .melt q ps => some (.melt q ps r.script r.lnFail)
   | .tokenStateCheck, .checkState ys => some (.checkState ys r.script)
   | .restoreSignatures, .restore outs => some (.restore (outs.map (·.b.sid)))
   | _, _ => none
